@@ -46,8 +46,28 @@ def target_funcs(spec):
 
 
 def mk_target(cuqi, spec):
+    """the target as the user declares it; `style` varies how the callables hand their results over (fresh array, read-only
+    array, view into a larger array, 0-d array / numpy scalar for the log-density) without changing any value"""
     f, g = target_funcs(spec)
-    return cuqi.distribution.UserDefinedDistribution(dim=dim_of(spec), logpdf_func=f, gradient_func=g)
+    style = spec.get("style", "plain")
+    if style == "readonly":
+        def g2(x, g=g):
+            out = np.array(g(x), dtype=float)
+            out.setflags(write=False)
+            return out
+        f2 = f
+    elif style == "view":
+        def g2(x, g=g):
+            big = np.zeros(2 * len(x) + 1)
+            big[1::2] = g(x)
+            return big[1::2]                  # non-contiguous view
+        f2 = lambda x, f=f: np.float64(f(x))
+    elif style == "array0d":
+        g2 = g
+        f2 = lambda x, f=f: np.array(f(x))    # 0-d array
+    else:
+        f2, g2 = f, g
+    return cuqi.distribution.UserDefinedDistribution(dim=dim_of(spec), logpdf_func=f2, gradient_func=g2)
 
 
 def cqc(x):
@@ -161,52 +181,100 @@ class OutOfUniforms(Exception):
     pass
 
 
-def run_chain(cuqi, impl, spec, eps, md, x0, scripts, warm=0, warm_seed=1, delta=None, x0_dtype="float64"):
+def run_chain(cuqi, impl, spec, eps, md, x0, scripts, warm=0, warm_seed=1, delta=None, x0_dtype="float64", opts=None):
     """list of per-transition observations for len(scripts) scripted transitions (after `warm` unscripted warm-up ones).
-    delta: opt_acc_rate (None = the samplers' default); x0_dtype: dtype of the initial point handed to the sampler"""
+    delta: opt_acc_rate (None = the samplers' default); x0_dtype: dtype / container of the initial point handed to the sampler;
+    opts (experimental sampler): md_default (max_depth left at its default), md_next (max_depth re-assigned before the later
+    transitions), fge (step_size=None: the sampler finds its own), tune_freq (argument of warmup)"""
+    opts = opts or {}
     T = mk_target(cuqi, spec)
     x0 = np.array(x0, dtype=float)
-    x0_in = np.array(x0, dtype=x0_dtype)           # what the sampler is given (the values are representable in that dtype)
+    if x0_dtype == "cuqiarray":
+        x0_in = cuqi.array.CUQIarray(np.array(x0, dtype=float))
+    else:
+        x0_in = np.array(x0, dtype=x0_dtype)       # what the sampler is given (the values are representable in that dtype)
     kw = {} if delta is None else {"opt_acc_rate": delta}
+    f_ind, _ = target_funcs(spec)
     obs = []
     if impl == "exp":
         from cuqi.experimental.mcmc import NUTS
-        s = NUTS(T, initial_point=x0_in, max_depth=md, step_size=eps, **kw)
+        s = NUTS(T, initial_point=x0_in, max_depth=(None if opts.get("md_default") else md),
+                 step_size=(None if opts.get("fge") else eps), **kw)
+        rec = Recorder(s)
+        in_fge = {"v": False}
+        fge = s._FindGoodEpsilon
+
+        def fge_wrapped(*a, **k):
+            in_fge["v"], act = True, rec.active
+            rec.active = False
+            try:
+                return fge(*a, **k)
+            finally:
+                in_fge["v"], rec.active = False, act
+        s._FindGoodEpsilon = fge_wrapped
         sched = None
         if warm:
-            events, used = [], []
+            events = []
             orig_tune, orig_step = s.tune, s.step
+            scw = Script([], first=10**9)            # every warm-up transition is served by a private generator: its draws are known
+            scw.own = np.random.RandomState(warm_seed)
+            scw.on_start = lambda scripted: rec.start()
 
             def tune(skip_len, update_count):
                 r = orig_tune(skip_len, update_count)
-                events.append(("tune", float(s._epsilon), float(s._epsilon_bar)))
+                events.append(("tune", float(s._epsilon), float(s._epsilon_bar), int(update_count)))
                 return r
 
+            warm_phase = {"on": True}
+
             def step():
+                xb = np.array(s.current_point, dtype=float).copy()
                 r = orig_step()
-                events.append(("step", float(s._current_alpha_ratio)))
+                if not warm_phase["on"]:      # scripted sampling steps: their statistic is checked by the per-transition oracle
+                    events.append(("step", float(s._current_alpha_ratio), float(s._current_alpha_ratio)))
+                    return r
+                # the statistic recomputed from the recorded leaves of the last doubling and the known momentum
+                tr, zz = rec.trans[-1], scw.zs[-1]
+                with np.errstate(all="ignore"):
+                    h0 = float(f_ind(xb)) - 0.5 * float(np.dot(zz, zz))
+                    last = tr["leaves"][tr["top"][-1]:] if tr["top"] else []
+                    hs = [l[2] - 0.5 * float(np.dot(l[1], l[1])) for l in last]
+                    al = sum(leaf_alpha(h, h0) for h in hs) / max(1, len(hs))
+                events.append(("step", al, float(s._current_alpha_ratio)))
                 return r
             s.tune, s.step = tune, step
-            with ScriptedRandom(seed=warm_seed):
-                s.warmup(warm)
+            with ScriptedRandom(seed=warm_seed, script=scw):
+                if "tune_freq" in opts:
+                    s.warmup(warm, tune_freq=opts["tune_freq"])
+                else:
+                    s.warmup(warm)
+            warm_phase["on"] = False
             sched = {"eps0": float(eps), "events": events, "delta": 0.6 if delta is None else delta}
-        rec = Recorder(s)
-        for (z, e, us) in scripts:
+        for j_, (z, e, us) in enumerate(scripts):
+            if j_ >= 1 and "md_next" in opts:
+                s.max_depth = opts["md_next"]          # attribute re-assigned on a live sampler
             sc = Script([(z, e, us)])
             sc.on_start = lambda scripted: rec.start()
+
+            def scr(kind, a, k, idx, sc=sc):
+                return None if in_fge["v"] else sc(kind, a, k, idx)
             xb = np.array(s.current_point, dtype=float).copy() if s._is_initialized else x0.copy()
             n_before = len(s.epsilon_list) if s._is_initialized else 0
             try:
-                with ScriptedRandom(script=sc) as sr:
+                with ScriptedRandom(seed=warm_seed, script=scr) as sr:
                     s.sample(1)
             except StopIteration:
                 raise OutOfUniforms()
             tr = rec.trans[-1]
             obs.append(dict(x0=xb, eps=float(s.epsilon_list[n_before]), leaves=tr["leaves"], point=np.array(s.current_point, dtype=float).copy(),
                             logd=float(s.current_target_logd), grad=np.array(s.current_target_grad, dtype=float).copy(),
-                            acc=bool(s._acc[-1]), nrand=sum(1 for l in sr.log if l[0] == "rand"),
+                            acc=bool(s._acc[-1]), nrand=sum(1 for o_ in (sc.orders[-1] if sc.orders else []) if o_ == "rand"),
                             nlast=len(tr["leaves"]) - tr["top"][-1] if tr["top"] else 0, alpha=float(s._current_alpha_ratio),
-                            order=sc.orders[-1] if sc.orders else [], ntree=int(s.num_tree_node_list[-1])))
+                            order=sc.orders[-1] if sc.orders else [], ntree=int(s.num_tree_node_list[-1]),
+                            md=int(s.max_depth)))
+        # keep-alive: the samples handed out earlier still are what they were when the transition ended
+        stored = [np.array(v, dtype=float) for v in s._samples[-len(scripts):]]
+        obs[0]["samples_stable"] = all(np.array_equal(a_, o_["point"]) for a_, o_ in zip(stored, obs))
         if sched is not None:
             sched["events"] = [("prewarm",)] + sched["events"][:]
             # events recorded so far contain the warm-up steps/tunes and the sampling steps
@@ -256,7 +324,7 @@ def run_chain(cuqi, impl, spec, eps, md, x0, scripts, warm=0, warm_seed=1, delta
                             point=np.array(theta[:, k], dtype=float), logd=float(joint[k]), grad=None, acc=None,
                             nrand=sum(1 for o in order if o == "rand"), nlast=len(tr["leaves"]) - tr["top"][-1] if tr["top"] else 0,
                             alpha=None, order=order, ntree=int(s.num_tree_node_list[k - 1]),
-                            first=np.array(theta[:, 0], dtype=float), chain_x0=[float(v) for v in x0]))
+                            first=np.array(theta[:, 0], dtype=float), chain_x0=[float(v) for v in x0], md=md))
         if warm:
             # the statistic of every warm-up iteration from its recorded leaves, for the dual-averaging oracle
             alphas = []
@@ -558,7 +626,7 @@ def gen_spec(rng, tk, d=None):
 def gen_script(rng, md):
     d = None
     e = rng.choice([dy(rng, 0, 1, 64) + 1 / 128, dy(rng, 0, 4, 64) + 1 / 128, dy(rng, 0, 12, 16) + 1 / 32])
-    us = [(rng.randint(0, 127) * 2 + 1) / 256 for _ in range(2 ** (md + 2) + 8)]
+    us = [(rng.randint(0, 127) * 2 + 1) / 256 for _ in range(2 ** (max(md, 5) + 2) + 8)]      # enough for any re-assigned / default depth
     return e, us
 
 
@@ -589,9 +657,10 @@ def case_expr(impl, spec, md, o, z, e, us, guard, exact=False):
 
 def mk_case(ctx_state, impl, spec, md, phase, o, z, e, us, chain_meta, idx, exact=False, cell_extra=""):
     guard = True if impl == "exp" else (ctx_state["leg_guard"] if spec.get("bad") == "pinf" else False)
-    inner, used = case_expr(impl, spec, md, o, z, e, us, guard, exact)
+    md_t = o.get("md", md)              # max_depth in force for this transition
+    inner, used = case_expr(impl, spec, md_t, o, z, e, us, guard, exact)
     meta = dict(chain_meta)
-    meta.update({"transition": idx, "guard": guard, "exact": exact})
+    meta.update({"transition": idx, "guard": guard, "exact": exact, "md_t": md_t})
     fail, sig = transition_oracle(impl, spec, o, z, e)
     epsc = [k for k, v in EPS_CLASSES.items() if chain_meta["eps"] in v]
     cell = "%s/%s/md%d/%s/%s%s" % (impl, kind_name(spec), md, epsc[0] if epsc else "adapted", phase, cell_extra)
@@ -638,7 +707,13 @@ def sched_case(o0, impl, spec, md, chain_meta):
     used_s = sc["used"][-n_s:]
     fail = None
     sig = "NUTS.exp.step_size_moves"
-    if len(set(used_s[1:])) > 1:
+    bad_alpha = [(i, ev[1], ev[2]) for i, ev in enumerate(ev for ev in sc["events"] if ev[0] == "step")
+                 if len(ev) > 2 and np.isfinite(ev[1]) and not relclose(ev[2], ev[1], 1e-12)]
+    if bad_alpha:
+        fail = ("warm-up step %d reports the acceptance statistic %r; the mean Metropolis probability over the leaves of its last doubling is %r"
+                % (bad_alpha[0][0] + 1, bad_alpha[0][2], bad_alpha[0][1]))
+        sig = "NUTS.exp.alpha_stat"
+    elif len(set(used_s[1:])) > 1:
         fail = "step size still changes during sampling: %s" % used_s
     else:
         # dual averaging: every tune() output from the statistic of the step before it
@@ -744,23 +819,49 @@ def gen_chain(ctx, rng, cuqi, state, impl, tk, md, epsc, warm, cases, inners, n_
             x0_dtype = rng.choice(["int64", "int32"])
         else:
             x0_dtype = "float32"          # multiples of 1/8 are exact in binary32
+    opts = {}
+    if impl == "exp" and tk != "quartic":
+        u_ = rng.random()
+        deep_ok = tk in ("gauss", "split")      # a +inf / flat region never turns back: no default depth there
+        if warm:
+            if u_ < 0.5:
+                opts["tune_freq"] = rng.choice([0.25, 0.5, 0.34])
+        elif u_ < 0.08 and eps >= 0.5 and deep_ok:
+            opts["md_default"] = True         # max_depth left at its default (15); large steps keep the trajectory short
+            md = 15
+        elif u_ < 0.18:
+            opts["md_next"] = rng.choice([0, 1, 2, 3])          # max_depth re-assigned on the live sampler
+        elif u_ < 0.24 and md <= 1:
+            opts["fge"] = True                # step_size=None: FindGoodEpsilon (not adapted afterwards)
+        elif u_ < 0.32:
+            x0_dtype = "cuqiarray"
+    if rng.random() < 0.3 and spec["kind"] != "box":
+        spec = dict(spec)
+        spec["style"] = rng.choice(["readonly", "view", "array0d"])
     chain_meta = {"impl": impl, "target": spec, "eps": eps, "max_depth": md, "x0": x0, "warm": warm, "warm_seed": wseed,
-                  "delta": delta, "x0_dtype": x0_dtype,
-                  "scripts": [[z, e, us[:40]] for (z, e, us) in scripts]}
+                  "delta": delta, "x0_dtype": x0_dtype, "opts": opts,
+                  "scripts": [[z, e, us] for (z, e, us) in scripts]}
     try:
-        obs = run_chain(cuqi, impl, spec, eps, md, x0, scripts, warm=warm, warm_seed=wseed, delta=delta, x0_dtype=x0_dtype)
+        obs = run_chain(cuqi, impl, spec, eps, md, x0, scripts, warm=warm, warm_seed=wseed, delta=delta, x0_dtype=x0_dtype, opts=opts)
     except OutOfUniforms:
         cases.append(crash_case(impl, spec, md, "warm" if warm else "fresh", chain_meta, "consumed more uniforms than any NUTS transition of this depth can"))
         return
     except Exception as ex:
         cases.append(crash_case(impl, spec, md, "warm" if warm else "fresh", chain_meta, repr(ex)))
         return
+    if impl == "exp" and not obs[0].get("samples_stable", True):
+        cases.append(Case(expr="true", meta=dict(chain_meta), cell="exp/keep-alive", kind="DECISION",
+                          impl_fail="a sample handed out by an earlier transition was altered by a later one", signature="NUTS.exp.stored_sample_changed"))
     for j, (o, (z, e, us)) in enumerate(zip(obs, scripts)):
         big = max([0.0] + [float(np.max(np.abs(np.concatenate([l[0], l[1]])))) for l in o["leaves"]])
         if not big < 1e120:
             state["skipped_float_overflow"] += 1      # squares overflow in binary64: outside the exact-arithmetic model
             continue
         phase = ("warm" if warm else "fresh") if j == 0 else ("warm+1" if warm else "second")
+        if opts:
+            phase += "+" + "+".join(sorted(k_ for k_ in opts))
+        if x0_dtype != "float64":
+            phase += "+" + x0_dtype
         c, inner = mk_case(state, impl, spec, md, phase, o, z, e, us, chain_meta, j)
         cases.append(c)
         inners.append(inner)
@@ -850,10 +951,10 @@ def run(ctx):
     # after warm-up (adapted, non-dyadic step size and start)
     # (an adapted step size is a 53-bit number: exact rationals then grow by ~160 bits per leaf, so trees stay shallow here)
     for impl in ("exp", "leg"):
-        for tk in ("gauss", "split"):
+        for tk in ("gauss", "split", "box:ninf"):       # box: leaves with -inf log-density enter the statistic that drives the adaptation
             for md in ((0, 1, 2) if ctx.thorough else (0, 1)):
                 for _ in range(ctx.n(3, 10) if md < 2 else 2):
-                    gen_chain(ctx, rng, cuqi, state, impl, tk, md, "mid", rng.choice([3, 5, 10, 12, 20, 25]), cases, inners)
+                    gen_chain(ctx, rng, cuqi, state, impl, tk, md, "mid", rng.choice([3, 5, 10, 12, 19, 20, 25]), cases, inners)
     tie_cases(ctx, rng, cuqi, state, cases)
     # how many of the scripted transitions were decided with all margins (sample)
     small = [t for t in inners if len(t) < 2500]
@@ -1052,7 +1153,7 @@ def replay(ctx, meta):
         return 0
     scripts = [(z, e, us) for (z, e, us) in m["scripts"]]
     obs = run_chain(cuqi, m["impl"], m["target"], m["eps"], m["max_depth"], m["x0"], scripts, warm=m.get("warm", 0), warm_seed=m.get("warm_seed", 1),
-                    delta=m.get("delta"), x0_dtype=m.get("x0_dtype", "float64"))
+                    delta=m.get("delta"), x0_dtype=m.get("x0_dtype", "float64"), opts=m.get("opts"))
     j = m.get("transition", 0)
     o = obs[j]
     z, e, us = scripts[j]
